@@ -306,13 +306,18 @@ func structMain(args []string) {
 		shapes = append(small, big...)
 	}
 	w := newEvWriter(*out, 100000)
-	var recent []sShape
+	var recent, firstOK []sShape
 	for _, sh := range shapes {
 		c := sCaseT{Fam: "struct", Shape: sh}
 		ev := runStructCase(c)
-		c.Prev = append([]sShape{}, recent...)
+		// what this process had seen before: the first declarations that were accepted (whatever
+		// is cached per type name was cached then) and the most recent ones
+		c.Prev = append(append([]sShape{}, firstOK...), recent...)
+		if ev.Obs.Check == "ok" && len(firstOK) < 2 {
+			firstOK = append(firstOK, sh)
+		}
 		recent = append(recent, sh)
-		if len(recent) > 4 {
+		if len(recent) > 3 {
 			recent = recent[1:]
 		}
 		stt.Calls += 4 + len(ev.Obs.Panics)
